@@ -123,4 +123,13 @@ PROPS = {
                      "one connection and one data direction per scenario; payloads <= 5 bytes and FIFO capacities <= 16 in the enumerated part; the 8 MiB bulk transfer is sampled",
                      "EPIPE/SIGPIPE, RST, lasting backlog overflow and errno injection are outside the model (errno injection belongs to C12)"],
     ),
+
+    "C13": dict(
+        level="fault_enumeration",
+        technique="fault enumeration over the syscall seam with fork re-arming: every command configuration of the family run fault-free against a dumping helper, and re-run with each parent-side and child-side system call failing; built with and without tiny-std's start feature",
+        steps=[_s("h-spawn", "c13"), _s("h-spawn", "c13-start", bin="h-spawn-start", features=["with-start"])],
+        assumptions=["fork (not vfork) semantics; signals during spawn and other threads in the caller are not covered",
+                     "Environment::Inherit is exercised through hook H2 in the start build only",
+                     "Child::wait returning the raw wait status or the exit code are both accepted"],
+    ),
 }
